@@ -63,7 +63,7 @@ def patterns():
 
 def generate(rng, tier):
     cases = []
-    reps = 3 if tier == "thorough" else 1
+    reps = 8 if tier == "thorough" else 1
     # exponents 0..300 x base classes
     for e in range(0, 301):
         for _ in range(reps):
